@@ -128,17 +128,10 @@ class MindsDBParser(Parser):
         model = params.pop('model', None)
         storage = params.pop('storage', None)
 
-        for key, value in (('storage', storage), ('model', model)):
-            if isinstance(value, str) and value == '':
-                raise ParsingException(f"CREATE KNOWLEDGE_BASE: parameter '{key}' must be a name")
-
-        if isinstance(storage, str):
-            # convert to identifier
-            storage = Identifier(storage)
-
-        if isinstance(model, str):
-            # convert to identifier
-            model = Identifier(model)
+        if storage is not None:
+            storage = self.name_parameter('CREATE KNOWLEDGE_BASE', 'storage', storage)
+        if model is not None:
+            model = self.name_parameter('CREATE KNOWLEDGE_BASE', 'model', model)
 
         if_not_exists = p.if_not_exists_or_empty
 
@@ -207,12 +200,7 @@ class MindsDBParser(Parser):
             raise ParsingException("CREATE CHATBOT requires the parameter 'database'")
 
         def to_identifier(name, value):
-            # the value is a quoted name or a name
-            if isinstance(value, Identifier):
-                return value
-            if isinstance(value, str) and value != '':
-                return Identifier(value)
-            raise ParsingException(f"CREATE CHATBOT: parameter '{name}' must be a name")
+            return self.name_parameter('CREATE CHATBOT', name, value)
 
         database = to_identifier('database', params.pop('database'))
         model_param = params.pop('model', None)
@@ -1810,6 +1798,14 @@ class MindsDBParser(Parser):
     @_('dquote_string')
     def identifier(self, p):
         return self.string_to_identifier(p[0])
+
+    def name_parameter(self, command, name, value):
+        # the value of a parameter that holds a name: a name or a quoted name (not a number, a list, dots only ...)
+        if isinstance(value, str) and value != '':
+            value = Identifier(value)
+        if isinstance(value, Identifier) and value.parts and all(part != '' for part in value.parts):
+            return value
+        raise ParsingException(f"{command}: parameter '{name}' must be a name")
 
     def string_to_identifier(self, value):
         # a name written as a quoted string
